@@ -7,7 +7,7 @@ package losses
 //@ define clipv(x, l, u) := fmaxr(l, fminr(x, u))
 //@ define lossIn1(yp, yt) := yp != nil && yt != nil && rank(yp) == 1 && rank(yt) == 1 && dim(yp, 0) == dim(yt, 0)
 //@ define lossIn2(yp, yt) := yp != nil && yt != nil && rank(yp) == 2 && rank(yt) == 2 && dim(yp, 0) == dim(yt, 0) && dim(yp, 1) == dim(yt, 1)
-//@ define libT(x) := imp(x != nil, tinv(x) && preexisting(x))
+//@ define libT(x) := imp(x != nil, tinv(x) && published(x))
 
 //@ func NewMSE
 //@   public
